@@ -13,7 +13,9 @@ for key, c in sorted(conf.items()):
     if not ok:
         print('NOT CONFIRMED', key, c)
         continue
-    dst = '/verif/seeded/%s-%s' % (pid, k)
+    k2 = str(int(k) + int(os.environ.get('OFFSET', '0')))
+    key = '%s-%s' % (pid, k2)
+    dst = '/verif/seeded/%s' % key
     os.makedirs(dst, exist_ok=True)
     for f in os.listdir(src):
         shutil.copy(os.path.join(src, f), dst)
